@@ -23,11 +23,25 @@ def streams(rng, tier, ctx):
 
 signature = c13.signature
 
+def eqn(rtt, p):
+    """eval_tcp_throughput(rtt, p) of send_rate.rs, including the saturating `as u32`."""
+    import math
+    s = 1472.0
+    try:
+        f_p = math.sqrt(p * 2.0 / 3.0) + 12.0 * math.sqrt(p * 3.0 / 8.0) * p * (1.0 + 32.0 * p * p)
+        d = rtt * f_p
+        x = s / d if d != 0.0 else (float("inf") if s > 0 else float("nan"))
+    except (ValueError, OverflowError):
+        return 0
+    if x != x:
+        return 0
+    return max(0, min(int(x) if abs(x) != float("inf") else (2**32 - 1 if x > 0 else 0), 2**32 - 1))
+
 def oracle(stream, cid, ops, outs):
     fails = H.trap_failures(ops, outs)
     sim = stream["meta"][cid]
     # walk the ops: for each endpoint, consecutive probes (after every tick) and whether an ack frame was handed to it in between
-    last = {}; got_ack = {"A": False, "B": False}
+    last = {}; got_ack = {"A": False, "B": False}; eqn_entry = {}
     kind_of = {}
     for op, o in zip(ops, outs):
         t = op.split(" ")
@@ -48,6 +62,22 @@ def oracle(stream, cid, ops, outs):
             if mode >= 1 and rate < MINR:
                 fails.append({"oracle": "rate_floor", "detail": "%s: send rate %d below s/64" % (ep, rate), "signature": {"oracle": "rate_floor"}})
                 return fails
+            # the equation, recomputed from the RTT estimate and the loss event rate of the last feedback (IEEE double, same
+            # operation order as eval_tcp_throughput); skipped until a feedback after the one that entered the phase has been
+            # handled (that one sets the rate from the slow-start target, within the bisection's tolerance)
+            if mode == 2 and rttb != "-" and len(p["rate"]) > 10:
+                key = (rttb, p["rate"][10])
+                if ep not in eqn_entry or eqn_entry[ep][0] != "in":
+                    eqn_entry[ep] = ("in", key)
+                elif key != eqn_entry[ep][1]:
+                    rtt = c13.bits_to_float(rttb); pl = c13.bits_to_float(p["rate"][10])
+                    x = eqn(rtt, pl)
+                    if rate > max(x, MINR):
+                        fails.append({"oracle": "rate_le_eqn_recomputed", "detail": "%s: send rate %d > X_Bps(rtt %.6f s, p %.6g) = %d (the implementation's cached value is %d)" %
+                                      (ep, rate, rtt, pl, x, tcp), "signature": {"oracle": "rate_le_eqn_recomputed"}})
+                        return fails
+            elif mode != 2:
+                eqn_entry.pop(ep, None)
             if mode == 2 and rate > max(tcp, MINR):
                 fails.append({"oracle": "rate_le_eqn", "detail": "%s: send rate %d > throughput equation %d" % (ep, rate, tcp), "signature": {"oracle": "rate_le_eqn"}})
                 return fails
